@@ -51,16 +51,21 @@ Fixpoint fat_loop (fuel : nat) (sectors f : Z) : option (Z * Z) :=
 Record geometry := mkGeo {
   g_difat : Z; g_fat : Z; g_minifat : Z; g_dir : Z; g_big : Z; g_mini : Z; g_ministream_start : Z; g_end : Z }.
 
-Definition locate (sizes : list Z) (npaths : Z) : option geometry :=
+(* the loop of cfb.locate has no bound of its own; the model runs it on fuel (never exhausted below 244 MiB:
+   C13_locate_total).  The fuel is a parameter of the definition the proofs are about, so that no proof ever
+   meets a unary numeral. *)
+Definition locate_with (fuel : nat) (sizes : list Z) (npaths : Z) : option geometry :=
   let mini := sumZ (map mini_sectors_of sizes) in
   let big := sumZ (map fat_sectors_of sizes) in
   let dir := (npaths + 3) / 4 in
   let ministream := (mini + 7) / 8 in
   let minifat := (mini + 127) / 128 in
   let sectors := ministream + big + dir + minifat in
-  match fat_loop 4096 sectors ((sectors + 127) / 128) with
+  match fat_loop fuel sectors ((sectors + 127) / 128) with
   | Some (f, d) =>
     let start0 := 1 + d + f + minifat + dir + big in
     Some (mkGeo d f minifat dir big mini start0 (start0 + ministream))
   | None => None
   end.
+Definition fat_fuel : nat := Z.to_nat 4096.
+Definition locate : list Z -> Z -> option geometry := locate_with fat_fuel.
